@@ -17,14 +17,21 @@ import (
 
 // ReplayFile is the on-disk form of a failing (or canonical) run.
 type ReplayFile struct {
-	Property  string            `json:"property"`
-	VerifSeed uint64            `json:"verif_seed"`
-	Run       uint64            `json:"run"`
-	Thorough  bool              `json:"thorough"`
-	Trace     []uint64          `json:"trace"`                       // nil => generate from (verif_seed, run)
-	Explicit  json.RawMessage   `json:"explicit_scenario,omitempty"` // if set: executed directly, no generator involved
-	Skip      []string          `json:"skip,omitempty"`
-	Race      bool              `json:"race_build,omitempty"` // found by (and to be replayed with) the -race build
+	Property  string          `json:"property"`
+	VerifSeed uint64          `json:"verif_seed"`
+	Run       uint64          `json:"run"`
+	Thorough  bool            `json:"thorough"`
+	Trace     []uint64        `json:"trace"`                       // nil => generate from (verif_seed, run)
+	Explicit  json.RawMessage `json:"explicit_scenario,omitempty"` // if set: executed directly, no generator involved
+	Skip      []string        `json:"skip,omitempty"`
+	Race      bool            `json:"race_build,omitempty"` // found by (and to be replayed with) the -race build
+	// Batch: the failure depends on process-global state left behind by earlier
+	// runs of the same worker process; replay re-executes runs
+	// first, first+stride, ... up to Run in one process.
+	Batch *struct {
+		First  uint64 `json:"first"`
+		Stride uint64 `json:"stride"`
+	} `json:"batch,omitempty"`
 	Violation *simkit.Violation `json:"violation,omitempty"`
 	Shrink    string            `json:"shrink,omitempty"`
 	Note      string            `json:"note,omitempty"`
@@ -338,6 +345,16 @@ func replayMain(path, progressPath, traceOut string) int {
 		out, _ := json.MarshalIndent(v, "", " ")
 		fmt.Printf("REPLAY-VIOLATION property=%s class=%s\n%s\n", rf.Property, v.Class(), out)
 		return 1
+	}
+	if rf.Batch != nil && rf.Trace == nil && rf.Batch.Stride > 0 {
+		// the predecessors of the failing run in its worker process
+		for i := rf.Batch.First; i < rf.Run; i += rf.Batch.Stride {
+			prog.setRun(i)
+			pc := simkit.NewChoices(simkit.RunSeed(rf.VerifSeed, rf.Property, i))
+			pc.Limit = traceLimit
+			cfg.Engine.Run(pc, &simkit.Ctx{Stats: simkit.NewStats(), Thorough: rf.Thorough, Skip: skipMap(rf.Skip), Beat: prog.beat})
+		}
+		prog.setRun(rf.Run)
 	}
 	var c *simkit.Choices
 	if rf.Trace == nil {
